@@ -193,6 +193,15 @@ def showErr : Err → String
   | .alreadyDefined => "err already-defined"
   | .emptySchema => "err empty-schema"
 
+/-- Session answers: the error kind as far as it does not depend on the registry's iteration
+order (which the parent process cannot observe in the child). -/
+def showErrClass : Err → String
+  | .invalid (.mismatch _) => "err field"
+  | .invalid (.missing _) => "err field"
+  | .invalid (.extra _) => "err extra"
+  | .time _ => "err time"
+  | e => showErr e
+
 def schemaOfFields (fs : List (String × Sum FieldSpec FieldType)) : Schema :=
   fs.map fun (k, f) => (k, fieldType f)
 
@@ -245,8 +254,8 @@ def runSession (lib : TimeLib) : List SOp → St → List String → List String
       let (r, st') := define st et specs
       runSession lib rest st' ((match r with | .ok _ => "ok" | .error e => showErr e) :: acc)
   | .store et ctx p :: rest, st, acc =>
-    let (s, st') := showStore lib st et ctx p
-    runSession lib rest st' ((if s.startsWith "ok" then "ok" else s) :: acc)
+    let (r, st') := store lib st et ctx p
+    runSession lib rest st' ((match r with | .ok _ => "ok" | .error e => showErrClass e) :: acc)
   | .query et key :: rest, st, acc =>
     let ids := (query st et none).foldl (fun l e =>
       match e.payload.lookup key with
